@@ -63,7 +63,7 @@ def worlds(tier):
     for nm, cut in (("ac", AC), ("bc", BC)):
         W.append((f"paxos-2prop-retry1-cut-{nm}", "paxos",
                   dict(n=3, proposers=(0, 1), max_retries=1, max_ballot=3, mute=MUTE_D, cut=cut,
-                       max_moves=14 if q else 16), 600_000))
+                       max_moves=13 if q else 16), 600_000))
     # two competing proposers, all links, bounded number of moves
     W.append(("paxos-2prop-all-links", "paxos",
               dict(n=3, proposers=(0, 1), max_retries=0, max_ballot=2, mute=MUTE_D, max_moves=12 if q else 14),
@@ -111,8 +111,8 @@ def worlds(tier):
         # safety: competing leaders (take-over), one command each
         W.append((f"{tag}-takeover", "log",
                   dict(base, presubmit=((0, "c1"), (n - 1, "c2")), starters=(0, n - 1), max_starts=2, max_hb=0,
-                       max_moves=10 if q else (11 if (kind == "multi" or (n, q1, q2) == (3, 2, 2)) else
-                                               ((9 if q1 == 1 else 10) if n == 3 else 9))), 600_000))
+                       max_moves=(10 if kind == "multi" else 9) if q else (11 if (kind == "multi" or (n, q1, q2) == (3, 2, 2)) else
+                                               ((8 if q1 == 1 else 10) if n == 3 else 9))), 600_000))
     if not q:
         # liveness for every other intersecting (phase-1, phase-2) quorum pair of 3 and 4 nodes, and 5-node clusters
         done = {(n, q1, q2) for n, q1, q2 in flexq}
